@@ -103,7 +103,7 @@ fixed("D3c", "C01", "3f04a4b", "a committed CREATE TABLE logged after a CREATE o
 open_("D22b", "C01", "a crash inside a checkpoint, between its first page write and the log truncation, loses acknowledged rows or leaves tables unreadable (logical redo over half-written pages)", "O-durability", "crash_inside_checkpoint_page_writes", "findings/D22b-crash-inside-checkpoint.json")
 open_("F4", "C01", "a checkpoint taken while a transaction is open writes its uncommitted changes and discards the log: after a crash they are permanent", "O-durability", "checkpoint_with_open_txn", "findings/F4-checkpoint-with-open-txn.json")
 fixed("F5", "C02", "d9227de", "a transaction that inserted and then deleted a row and is open (or failed) at the crash left that row behind after recovery", "O-atomicity", "findings/F5-own-insert-then-delete-open-at-crash.json")
-open_("D6c", "C01", "DROP TABLE writes freed pages to the file before the transaction commits; a crash then makes open fail while redoing the table's logged rows", "O-open", "drop_table_before_crash", "findings/D6c-drop-table-writes-pages-before-commit.json")
+fixed("D6c", "C01", "ea2713a", "DROP TABLE wrote freed pages to the file before the transaction commits; a crash then made open fail while redoing the table's logged rows", "O-open", "findings/D6c-drop-table-writes-pages-before-commit.json")
 open_("F7", "C01", "recovery of rows with overflow chains (several KB of text) leaves the table unreadable (panic at storage/core/buffer.rs:570)", "O-open", "rows_with_overflow_chains", "findings/F7-recovery-of-rows-with-overflow-chains.json")
 open_("D6d", "C01", "deleting a row with an overflow chain writes the freed pages to the file before commit; after a crash the acknowledged row comes back corrupted", "O-durability", "rows_with_overflow_chains", "findings/D6d-delete-of-overflow-row-writes-pages-before-commit.json")
 open_("S1", "C01", "once cache eviction has written a dirty page back before the next checkpoint (steal), a crash makes open fail or lose acknowledged rows: logical redo runs over pages that already hold the changes", "O-open", "crash_after_stolen_page", "findings/S1-crash-after-an-evicted-dirty-page-was-written-back.json")
